@@ -1,3 +1,3 @@
 SPECIFICATION Spec
-CONSTANTS MaxLen = 5
+CONSTANTS MaxLen = 4
 CHECK_DEADLOCK FALSE
